@@ -47,6 +47,9 @@ type c09Job struct {
 	Kind      string   `json:"kind"`
 	Binary    bool     `json:"binary"`
 	Mbt       bool     `json:"mbt"` // a case exported by TLC from the as-coded variant of Dest
+	// Primed: an honest directory entry ["d"] with the same path id is received first, so that the
+	// receiver has already chosen (and cached) a local name for that path id
+	Primed bool `json:"primed"`
 }
 
 type c09Result struct {
@@ -462,6 +465,15 @@ func c09RunDirect(d *vCtx, tr *vTrace, base string, j *c09Job) (*c09Result, erro
 		}()
 		switch j.Site {
 		case "plain", "json":
+			if j.Primed && j.Site == "json" {
+				prime := "#NAME:" + encodeString(c09JSONName(j.Hp, []string{"d"}, true, false, 0)) + "\n"
+				rt.addReceivedData([]byte(prime), false)
+				if j.Proto >= 3 {
+					_, _, _ = rt.recvFileNameV3(sb.dst, nil)
+				} else {
+					_, _, _ = rt.recvFileName(sb.dst, nil)
+				}
+			}
 			payload := rel[0]
 			if j.Site == "json" {
 				payload = c09JSONName(j.Hp, rel, j.Hd, false, 10)
